@@ -35,24 +35,57 @@ Qed.
 
 Section StageA.
 Variable key : id -> option str.
+Variable fold : id -> bool.
 Variable mt : str -> str -> bool.
 Variable ab : str -> bool.
 
 Notation val := (val key).
 Notation has_key := (has_key key).
 Notation em := (em key mt).
-Notation any_match := (any_match key mt).
+Notation xeq := (xeq key fold).
+Notation sm := (sm key fold mt ab).
+Notation any_match := (any_match key fold mt ab).
 Notation scan_children := (scan_children key mt).
 Notation stageA_pattern := (stageA_pattern key mt ab).
 Notation stageA_parent := (stageA_parent key mt ab).
 Notation stageA := (stageA key mt ab).
-Notation scan_lookup := (scan_lookup key).
+Notation scan_lookup := (scan_lookup key fold).
 
 (* get_instances only scans the children that carry the key *)
 Definition keyok (nk : bool) (e : id) : Prop := negb nk || has_key e = true.
 
-Lemma any_match_cons p ps e : any_match (p :: ps) e = em p e || any_match ps e.
+Lemma any_match_cons p ps e : any_match (p :: ps) e = sm p e || any_match ps e.
 Proof. reflexivity. Qed.
+
+(* the selection test [sm]: an absolute pattern by [xeq], the others by [em] *)
+Lemma sm_abs p e : ab p = true -> sm p e = xeq p e.
+Proof. intro H. unfold Filter.sm. rewrite H. reflexivity. Qed.
+
+Lemma sm_nonabs p e : ab p = false -> sm p e = em p e.
+Proof. intro H. unfold Filter.sm. rewrite H. reflexivity. Qed.
+
+Lemma xeq_nofold p e : fold e = false -> (xeq p e = true <-> val e = p).
+Proof.
+  intro H. unfold Filter.xeq. rewrite H, str_eqb_spec. split; intro; subst; reflexivity.
+Qed.
+
+Lemma xeq_fold p e : fold e = true -> (xeq p e = true <-> lower (val e) = lower p).
+Proof.
+  intro H. unfold Filter.xeq. rewrite H, str_eqb_spec. split; intro E; rewrite E; reflexivity.
+Qed.
+
+Lemma lower_nil_inv (p : str) : lower p = [] -> p = [].
+Proof. destruct p; [reflexivity|discriminate]. Qed.
+
+(* an element without the key has the value "": no non-empty exact pattern equals it *)
+Lemma xeq_nokey p e : p <> [] -> has_key e = false -> xeq p e = false.
+Proof.
+  unfold Filter.has_key, Filter.xeq, Filter.val. destruct (key e); [discriminate|]. intros Hp _.
+  cbn [value_or_empty]. destruct (fold e).
+  - destruct (str_eqb (lower p) (lower [])) eqn:E; [|reflexivity]. apply str_eqb_spec in E.
+    apply lower_nil_inv in E. contradiction.
+  - destruct (str_eqb p []) eqn:E; [|reflexivity]. apply str_eqb_spec in E. contradiction.
+Qed.
 
 Lemma any_match_perm pats pats' e : Permutation pats pats' -> any_match pats e = any_match pats' e.
 Proof. apply existsb_perm. Qed.
@@ -118,18 +151,18 @@ Qed.
 (* the lookup of this parent answers exactly the selected children, for absolute non-empty patterns *)
 Definition parent_ok (nk : bool) (lk : str -> list id) (ch : list id) : Prop :=
   forall p e, ab p = true -> p <> [] ->
-    (In e (lk p) <-> In e ch /\ keyok nk e /\ em p e = true).
+    (In e (lk p) <-> In e ch /\ keyok nk e /\ sm p e = true).
 
 Definition good_pats (pats : list str) : Prop := forall p, In p pats -> ab p = true -> p <> [].
 
 Lemma stageA_pattern_spec nk lk ch p found e :
   parent_ok nk lk ch -> (ab p = true -> p <> []) ->
   (In e (stageA_pattern nk lk ch p found) <->
-   In e ch /\ keyok nk e /\ ~ In e found /\ em p e = true).
+   In e ch /\ keyok nk e /\ ~ In e found /\ sm p e = true).
 Proof.
   intros Hok Hp. unfold Filter.stageA_pattern. destruct (ab p) eqn:Ea.
   - specialize (Hp eq_refl). rewrite yield_new_spec, (Hok p e Ea Hp). tauto.
-  - apply scan_children_spec.
+  - rewrite scan_children_spec. unfold Filter.sm. rewrite Ea. tauto.
 Qed.
 
 (* ---- all patterns on one parent ---- *)
@@ -160,7 +193,7 @@ Proof.
     assert (Hp : ab p = true -> p <> []) by (apply Hg; left; reflexivity).
     rewrite in_app_iff, (IH Hg'), (stageA_pattern_spec nk lk ch p found e Hok Hp), any_match_cons.
     rewrite in_app_iff. rewrite (stageA_pattern_spec nk lk ch p found e Hok Hp).
-    destruct (em p e) eqn:E; cbn [orb].
+    destruct (sm p e) eqn:E; cbn [orb].
     + split; [|tauto]. intros [H|(H1 & H2 & H3 & H4)]; [tauto|]. repeat split; auto.
     + split.
       * intros [(_ & _ & _ & H)|(H1 & H2 & H3 & H4)]; [discriminate|]. repeat split; auto.
@@ -212,17 +245,17 @@ Qed.
 Definition uniq_keys (ch : list id) : Prop :=
   forall c1 c2 w, In c1 ch -> In c2 ch -> key c1 = Some w -> key c2 = Some w -> c1 = c2.
 
-Hypothesis abs_eq : forall p v, ab p = true -> (mt p v = true <-> v = p).
+(* what the scan answers: the children carrying the key whose value equals the pattern *)
+Lemma scan_lookup_spec ch p e :
+  In e (scan_lookup ch p) <-> In e ch /\ has_key e = true /\ xeq p e = true.
+Proof. unfold Filter.scan_lookup. rewrite filter_In, andb_true_iff. tauto. Qed.
 
 Lemma scan_lookup_ok nk ch : parent_ok nk (scan_lookup ch) ch.
 Proof.
-  intros p e Ha Hp. unfold Filter.scan_lookup, Filter.em. rewrite (abs_eq p _ Ha), filter_In. split.
-  - intros [H1 H2]. destruct (key e) as [w|] eqn:Ek; [|discriminate].
-    apply str_eqb_spec in H2. subst w. split; [exact H1|]. split.
-    + unfold keyok, Filter.has_key. rewrite Ek. apply orb_true_r.
-    + unfold Filter.val. rewrite Ek. reflexivity.
-  - intros (H1 & _ & H3). unfold Filter.val in H3. split; [exact H1|].
-    destruct (key e) as [w|] eqn:Ek; cbn in H3; [subst w; apply str_eqb_refl|congruence].
+  intros p e Ha Hp. rewrite scan_lookup_spec, (sm_abs p e Ha). split.
+  - intros (H1 & H2 & H3). repeat split; auto. unfold keyok. rewrite H2. apply orb_true_r.
+  - intros (H1 & _ & H3). repeat split; auto. destruct (has_key e) eqn:E; [reflexivity|].
+    rewrite (xeq_nokey p e Hp E) in H3. discriminate.
 Qed.
 
 (* lookup_ok: the registered fast lookup agrees with the scan (follows from the invariant of property C10) *)
